@@ -145,7 +145,8 @@ pub const STRING_POOL: [&str; 10] = ["", "a", "ab", "z", "gone", "hÃ©llo", "æ—¥æ
 
 pub fn string_strategy(cfg: ValCfg) -> BoxedStrategy<String> {
     if cfg.small_alphabet {
-        return select(SMALL_ALPHABET.to_vec()).prop_map(|s| s.to_string()).boxed();
+        // rarely a string above 64 KiB (tables and buffers have thresholds of their own)
+        return prop_oneof![80 => select(SMALL_ALPHABET.to_vec()).prop_map(|s| s.to_string()), 1 => Just("0123456789abcdef".repeat(4400))].boxed();
     }
     let long = if cfg.long {
         prop_oneof![
@@ -262,6 +263,19 @@ fn bigint_bytes() -> BoxedStrategy<Vec<u8>> {
             vec![0x7f, 0xff, 0xff, 0xff, 0xff, 0xff, 0xff, 0xff], vec![0x80, 0, 0, 0, 0, 0, 0, 0], vec![0x00, 0x80, 0, 0, 0, 0, 0, 0, 0], vec![0x01, 0, 0, 0, 0, 0, 0, 0, 0, 0, 0, 0, 0, 0, 0, 0, 0],
         ]),
         3 => proptest::collection::vec(any::<u8>(), 1..24).prop_map(|b| crate::refcodec::normalize_signed_be(&b)),
+        // the corners of every width: -2^(8k-1), 2^(8k-1), -256^k and its neighbours (carry chains), 256^k - 1
+        2 => (1usize..=17, 0u8..6).prop_map(|(k, kind)| {
+            let zeros = |n: usize| std::iter::repeat(0u8).take(n);
+            let b: Vec<u8> = match kind {
+                0 => std::iter::once(0x80).chain(zeros(k - 1)).collect(),
+                1 => [0x00, 0x80].into_iter().chain(zeros(k - 1)).collect(),
+                2 => std::iter::once(0xff).chain(zeros(k)).collect(),
+                3 => std::iter::once(0xfe).chain(std::iter::repeat(0xff).take(k)).collect(),
+                4 => std::iter::once(0xff).chain(zeros(k - 1)).chain(std::iter::once(0x01)).collect(),
+                _ => std::iter::once(0x00).chain(std::iter::repeat(0xff).take(k)).collect(),
+            };
+            crate::refcodec::normalize_signed_be(&b)
+        }),
     ]
     .boxed()
 }
